@@ -69,6 +69,16 @@ pub fn pool() -> Vec<(String, Message)> {
         t.biases[389].satellite_id = 64;
         out.push(("1059 sat 64 (fails in the list)".into(), Message::Msg1059(t)));
     }
+    // near-maximum frames of many different lengths: 1059 with 390 negative biases spread over s satellites
+    // (payload = 73 + 11 s + 7410 bits: 1015..1022 bytes for s = 54..63), and 1065 likewise
+    for s_cnt in 50..=63usize {
+        let mut t = Msg1059T::default();
+        for i in 0..390usize {
+            let sat = (i % s_cnt) as u8;
+            t.biases.push(Msg1059CodeBias { satellite_id: sat, signal_id: GpsSigId::new([1, 1, 1, 2, 2, 2, 2, 2, 2, 2, 5, 5][(i / s_cnt) % 12], ['C', 'P', 'W', 'C', 'D', 'S', 'L', 'X', 'P', 'W', 'I', 'Q'][(i / s_cnt) % 12]), bias_m: -0.01 });
+        }
+        out.push((format!("1059x390 over {} satellites", s_cnt), Message::Msg1059(t)));
+    }
     // 1029 with 255 bytes (85 three-byte characters) and one that is refused after the header was written
     if let Message::Msg1029(t) = decode_frame(&make_frame(&zero_payload(1029)[..12])) {
         let mut a = t.clone();
